@@ -498,3 +498,56 @@ func init() {
 			}
 		}})
 }
+
+// ---------------------------------------------------------------------------
+// must-hold queries
+// ---------------------------------------------------------------------------
+
+// heldHere returns the acquisition of class (any of modes, "" = any) that is held
+// on every path to ins within ins's own function, or nil.
+func (x *Ctx) heldHere(ins ssa.Instruction, class, modes string) *acquisition {
+	m := x.locks()
+	for _, a := range m.byFn[ins.Parent()] {
+		if a.Class == class && (modes == "" || strings.Contains(modes, a.Mode)) && a.mustHoldAt(ins) {
+			return a
+		}
+	}
+	return nil
+}
+
+// mustHold decides whether a lock of the class (in one of modes) is held on every
+// path to ins, looking through callers: if ins's function does not hold it, every
+// synchronous call site of that function must. Returns a witness chain on
+// failure.
+func (x *Ctx) mustHold(ins ssa.Instruction, class, modes string) (bool, string) {
+	return x.mustHoldRec(ins, class, modes, map[*ssa.Function]bool{}, 0)
+}
+
+func (x *Ctx) mustHoldRec(ins ssa.Instruction, class, modes string, stack map[*ssa.Function]bool, depth int) (bool, string) {
+	if a := x.heldHere(ins, class, modes); a != nil {
+		return true, ""
+	}
+	fn := ins.Parent()
+	if stack[fn] || depth > 12 {
+		return false, prog.FnName(fn) + " (recursion)"
+	}
+	stack[fn] = true
+	defer delete(stack, fn)
+	edges := x.calls().inSites[fn]
+	if len(edges) == 0 {
+		return false, prog.FnName(fn) + " (entry point: no caller holds " + class + ")"
+	}
+	for _, e := range edges {
+		caller := e.Callee // inSites stores the caller in Callee
+		if e.Spawned {
+			return false, prog.FnName(fn) + " <- started on a new goroutine by " + prog.FnName(caller)
+		}
+		if e.Site == nil {
+			return false, prog.FnName(fn) + " <- closure escapes from " + prog.FnName(caller)
+		}
+		if ok, why := x.mustHoldRec(e.Site, class, modes, stack, depth+1); !ok {
+			return false, prog.FnName(fn) + " <- " + why
+		}
+	}
+	return true, ""
+}
